@@ -17,7 +17,7 @@ Definition vbool (o : outcome bool) : string := verdict o (fun b => if b then "1
 
 (** T: ScriptType  k: IsP2PKH  p: IsP2PK  s: IsP2SH  d: IsData  m: IsMultiSigOut  i: IsP2PKHInscription
     H: PublicKeyHash  A: Addresses (hashes)  I: ParseInscription (prefix, data, content type)
-    a: ToASM  N: node JSON of an output carrying the script (asm, reqSigs, type) *)
+    a: ToASM  N: node JSON of an output carrying the script (asm, reqSigs, type, and hex: the script itself) *)
 Definition obs_inspect (s : bytes) : string :=
   "T" ++ verdict (script_type s) type_name ++
   ";k" ++ vbool (is_p2pkh s) ++ ";p" ++ vbool (is_p2pk s) ++ ";s" ++ vbool (is_p2sh s) ++
@@ -26,7 +26,7 @@ Definition obs_inspect (s : bytes) : string :=
   ";A" ++ verdict (addresses s) (fun l => join "," (map habbr l)) ++
   ";I" ++ verdict (parse_inscription s) (fun x => habbr (i_prefix x) ++ "," ++ habbr (i_data x) ++ "," ++ habbr (i_content_type x)) ++
   ";a" ++ verdict (to_asm s) sabbr ++
-  ";N" ++ verdict (node_output s) (fun x => sabbr (fst (fst x)) ++ "," ++ dec_of (snd (fst x)) ++ "," ++ type_name (snd x)).
+  ";N" ++ verdict (node_output s) (fun x => sabbr (fst (fst x)) ++ "," ++ dec_of (snd (fst x)) ++ "," ++ type_name (snd x) ++ "," ++ habbr s).
 
 Inductive case :=
 | CTiny (len : nat) (v : N) (obs : N)                   (* the script is [le_enc len v]; digest of the text *)
